@@ -66,6 +66,9 @@ def file_state(af):
 
 
 # ---------------- readFramesAtTimes ---------------------------------------------
+_rep_kind = ["silence"]  # set by the driver: how the replacement function of the next call was made (for replay)
+
+
 def _rf_pre(ctx):
     af = ctx.arg(0, "audiofile")
     keep, dele, rep = ctx.arg(1, "keepIntervals", None), ctx.arg(2, "deleteIntervals", None), ctx.arg(3, "replaceFunc", None)
@@ -84,7 +87,8 @@ def _rf_post(ctx):
     width, rate, n = p.sampwidth, p.framerate, p.nframes
     model = W.decode(raw, width)
     dur = n / rate
-    case = {"call": "readFramesAtTimes", "width": width, "rate": rate, "samples": model, "keep": keep, "delete": dele, "replace": rep is not None}
+    case = {"call": "readFramesAtTimes", "width": width, "rate": rate, "samples": model, "keep": keep, "delete": dele, "replace": rep is not None,
+            "replace_kind": list(_rep_kind) if rep is not None else None}
     mech = {"op": "readFramesAtTimes", "width": width, "exc": type(ctx.exc).__name__ if ctx.exc else None}
     REC.outcome(mon, ctx.exc)
     if keep and dele:
@@ -151,6 +155,24 @@ def _rf_post(ctx):
         REC.violation(PROP, mon, "readFramesAtTimes", case, "raised %s: %s" % (type(ctx.exc).__name__, ctx.exc), sig, mech)
         return
     got = bytes(ctx.result)
+    if rep is not None and all(W.on_grid(t, rate) for ab in srt for t in ab):
+        # "for boundaries on sample positions, the result has the original length and every kept sample is at its original
+        # position" - whatever the generator returned
+        classes.append("C17:replacement:on-grid-positions-checked")
+        gd = W.decode(got, width)
+        why = None
+        if gd is None or len(gd) != len(model):
+            why = "%s samples returned, the recording has %d" % (None if gd is None else len(gd), len(model))
+        else:
+            for a, b, kept in marked:
+                if kept:
+                    i, j = W.index_at(a, rate), W.index_at(b, rate)
+                    if gd[i:j] != model[i:j]:
+                        why = "kept samples %d..%d are not at their original position" % (i, j)
+                        break
+        if why:
+            REC.violation(PROP, mon, "readFramesAtTimes", case, "with every boundary on a sample position and a replacement generator: " + why, sig, dict(mech, positions=True))
+            return
     # expand generated stretches with what the replacement function actually returned for that duration
     out = b""
     ok = True
@@ -463,7 +485,10 @@ def workload(tier, rng, shard, nshards, work):
             on_grid = rng.random() < 0.5
             lst = interval_list(rng, n, rate, on_grid)
             marker = W.encode([7], width)
-            rep = rng.choice([None, gen_.generateSilence, lambda d, _r=rate, _m=marker: _m * round(_r * d), gen_.buildSineWaveGenerator(rng.choice([100, 440]), rng.choice([None, 50]))])
+            sf, sa = rng.choice([100, 440]), rng.choice([None, 50])
+            ri = rng.randrange(4)
+            rep = [None, gen_.generateSilence, lambda d, _r=rate, _m=marker: _m * round(_r * d), gen_.buildSineWaveGenerator(sf, sa)][ri]
+            _rep_kind[:] = [["none"], ["silence"], ["marker"], ["sine", sf, sa]][ri]
             if k % 20 == 0 or k % 3 == 0:
                 af = wave.open(fn, "r")  # otherwise the handle of the previous call is used again (it has been read from)
             else:
@@ -541,7 +566,13 @@ def replay(v, work):
             wf.writeframes(W.encode(c["samples"], c["width"]))
             wf.close()
         if c["call"] == "readFramesAtTimes":
-            rep = audio.AudioGenerator(c["width"], c["rate"]).generateSilence if c["replace"] else None
+            g = audio.AudioGenerator(c["width"], c["rate"])
+            rk = c.get("replace_kind") or ["silence"]
+            rep = None
+            if c["replace"]:
+                rep = g.buildSineWaveGenerator(rk[1], rk[2]) if rk[0] == "sine" else (
+                    (lambda d, _r=c["rate"], _m=W.encode([7], c["width"]): _m * round(_r * d)) if rk[0] == "marker" else g.generateSilence)
+            _rep_kind[:] = rk
             call(audio.readFramesAtTimes, wave.open(fn, "r"), [tuple(x) for x in c["keep"]] if c["keep"] is not None else None,
                  [tuple(x) for x in c["delete"]] if c["delete"] is not None else None, rep)
         elif c["call"] == "extractSubwav":
